@@ -256,8 +256,12 @@ structure World where
   globals : String → Option Val
   other : (target key value : Val) → Nat → Option Val
   field : Val → Val → Option Val
-  /-- navigation fields bound by FilterUtility::EvaluateFilter (filterutility.cpp:104-115) -/
+  /-- the object a navigation field of the target joins (`target->NavigateField(fid)`, filterutility.cpp:110) -/
   nav : Val → String → Val
+  /-- the names of the navigation fields of the Host / Service type (filterutility.cpp:104-115 walks the type's
+      fields). Which fields a type has is not the property's business: the driver reads them from the
+      implementation's type reflection; today `defaultNavNames`. -/
+  navNames : TgtType → List String
 
 def bind (x : String) (v : Val) (f : String → Option Val) : String → Option Val :=
   fun y => if y = x then some v else f y
@@ -461,21 +465,32 @@ def indexedFull (w : World) (rules : Rules) (inv : Inventory) : LoadResult :=
 
 /-! ## API queries (lib/remote/filterutility.cpp:272-336) -/
 
-/-- the navigation fields of Checkable (checkable.ti:30-51,182) -/
-def navNames : List String := ["check_command", "check_period", "event_command", "command_endpoint"]
+/-- the navigation fields today: those of Checkable (checkable.ti:30-51,182), for a Service also `host`
+    (service.ti:44) -/
+def defaultNavNames : TgtType → List String
+  | .host => ["check_command", "check_period", "event_command", "command_endpoint"]
+  | .service => ["check_command", "check_period", "event_command", "command_endpoint", "host"]
+
+def lcName : TgtType → String
+  | .host => "host"
+  | .service => "service"
+
+def tgtOfD (t : Val) : TgtType := match t with
+  | .service _ _ => .service
+  | _ => .host
+
+/-- what a navigation field joins; a Service's `host` is its host (the one join the property relies on) -/
+def navVal (w : World) (t : Val) (n : String) : Val :=
+  match t with
+  | .service _ _ => if n = "host" then hostOf t else w.nav t n
+  | _ => w.nav t n
 
 /-- The namespace `FilterUtility::EvaluateFilter` evaluates a user filter in (filterutility.cpp:84-118,
-    318-326): `filter_vars` first, then `obj`, the lower-cased type name, the navigation fields
-    (for a Service: `host`); the later ones overwrite. Globals behind. -/
+    342-350): `filter_vars` first, then `obj`, the lower-cased type name, the navigation fields; the later
+    ones overwrite. Globals behind. -/
 def apiVars (w : World) (fvars : List (String × Val)) (t : Val) : String → Option Val :=
-  let l := bind "obj" t (bindAll fvars w.globals)
-  let l := match t with
-    | .service _ _ => bind "service" t l
-    | _ => bind "host" t l
-  let l := bindAll (navNames.map fun n => (n, w.nav t n)) l
-  match t with
-  | .service _ _ => bind "host" (hostOf t) l
-  | _ => l
+  bindAll ((w.navNames (tgtOfD t)).map fun n => (n, navVal w t n))
+    (bind (lcName (tgtOfD t)) t (bind "obj" t (bindAll fvars w.globals)))
 
 def apiEnv (w : World) (fvars : List (String × Val)) (t : Val) : Env :=
   { vars := apiVars w fvars t, other := w.other t .empty .empty, field := w.field }
@@ -496,15 +511,13 @@ def apiSlow (w : World) (fvars : Option (List (String × Val))) (ty : TgtType) (
     | _, _ => none) (some [])
 
 /-- the names `FilterUtility::EvaluateFilter` binds for a target of the type -/
-def apiBound : TgtType → List String
-  | .host => ["obj", "host"] ++ navNames
-  | .service => ["obj", "service", "host"] ++ navNames
+def apiBound (w : World) (ty : TgtType) : List String := ["obj", lcName ty] ++ w.navNames ty
 
 /-- `FilterVarsCollideWithTarget` (filterutility.cpp:119-141, commit 77a9c63): a `filter_vars` key that evaluation
     overwrites with the target is not a constant. -/
-def fvarsCollide (ty : TgtType) : Option (List (String × Val)) → Bool
+def fvarsCollide (w : World) (ty : TgtType) : Option (List (String × Val)) → Bool
   | none => false
-  | some l => l.any fun p => (apiBound ty).contains p.1
+  | some l => l.any fun p => (apiBound w ty).contains p.1
 
 /-- `FilterUtility::GetFilterTargets` for `{type, filter, filter_vars}` with the default provider and no
     permission filter (filterutility.cpp:296-360): unless a filter var collides, recognised filters are answered
@@ -512,7 +525,7 @@ def fvarsCollide (ty : TgtType) : Option (List (String × Val)) → Bool
     filter's disjuncts. -/
 def apiTargets (w : World) (fvars : Option (List (String × Val))) (ty : TgtType) (e : Expr) (inv : Inventory) :
     Option (List Val) :=
-  if fvarsCollide ty fvars then apiSlow w fvars ty e inv else
+  if fvarsCollide w ty fvars then apiSlow w fvars ty e inv else
   match ty with
   | .host =>
     match getTargetHosts (apiConsts fvars) e with
